@@ -498,6 +498,54 @@ theorem C13_cancel_budget (p : Policy) (N : Nat) (hp : ∀ m, p.attempt m = deci
   have := hi.toAcc.acc
   omega
 
+/-- **the consistency level under concurrent executions**: the statement's level is written by `rt.Attempt` from
+    whichever execution decides and read by whichever execution sends next; for EVERY schedule (with cancellations
+    at any point) every request carries the statement's own level or one of the levels configured in
+    DowngradingConsistencyRetryPolicy, and so does the statement afterwards; under a policy that never sets a level
+    (Simple, ExponentialBackoff, none) every request carries the statement's own. The machine underneath is the one
+    of the theorems above (`runK … .c = runC …`). -/
+theorem C13_shared_consistency (derived : Bool) (c0 hosts e cons0 : Nat) (sched : List ExecutorConc.ActC) :
+    (∀ ls : List Nat,
+      let k := ExecutorConc.runK (some (downgradingPolicyL ls)) derived (ExecutorConc.initK c0 hosts e cons0) sched
+      (∀ x ∈ k.reqCons, x = cons0 ∨ x ∈ ls) ∧ (k.cons = cons0 ∨ k.cons ∈ ls)) ∧
+    (∀ pol : Option Policy, (∀ p n, pol = some p → p.newCons n = none) →
+      let k := ExecutorConc.runK pol derived (ExecutorConc.initK c0 hosts e cons0) sched
+      (∀ x ∈ k.reqCons, x = cons0) ∧ k.cons = cons0) ∧
+    (∀ pol : Option Policy, (ExecutorConc.runK pol derived (ExecutorConc.initK c0 hosts e cons0) sched).c =
+      ExecutorConc.runC pol derived (ExecutorConc.initC c0 hosts e) sched) := by
+  have start : ∀ pol : Option Policy, ExecutorConc.Level pol cons0 (ExecutorConc.initK c0 hosts e cons0).cons ∧
+      ∀ x ∈ (ExecutorConc.initK c0 hosts e cons0).reqCons, ExecutorConc.Level pol cons0 x :=
+    fun pol => ⟨Or.inl rfl, by intro x hx; simp [ExecutorConc.initK] at hx⟩
+  refine ⟨?_, ?_, fun pol => ExecutorConc.runK_c pol derived sched _⟩
+  · intro ls k
+    have h := ExecutorConc.runK_level (some (downgradingPolicyL ls)) derived cons0 sched _ (start _)
+    have conv : ∀ x, ExecutorConc.Level (some (downgradingPolicyL ls)) cons0 x → x = cons0 ∨ x ∈ ls := by
+      intro x hx
+      rcases hx with hx | ⟨p, n, hp, hn⟩
+      · exact Or.inl hx
+      · have : p = downgradingPolicyL ls := by injection hp with hp; exact hp.symm
+        subst this
+        simp only [downgradingPolicyL] at hn
+        split at hn
+        · simp at hn
+        · exact Or.inr (List.mem_of_getElem? hn)
+    exact ⟨fun x hx => conv x (h.2 x hx), conv _ h.1⟩
+  · intro pol hnone k
+    have h := ExecutorConc.runK_level pol derived cons0 sched _ (start _)
+    have conv : ∀ x, ExecutorConc.Level pol cons0 x → x = cons0 := by
+      intro x hx
+      rcases hx with hx | ⟨p, n, hp, hn⟩
+      · exact hx
+      · rw [hnone p n hp] at hn; simp at hn
+    exact ⟨fun x hx => conv x (h.2 x hx), conv _ h.1⟩
+
+/-- non-vacuity: execution 0 fails and decides (level 6 → 4), THEN execution 1 is launched: its FIRST request
+    already carries the downgraded level -/
+example :
+    let k := ExecutorConc.runK (some (downgradingPolicyL [4, 1])) true (ExecutorConc.initK 0 3 2 6)
+      [.ex (.launch 0), .ex (.complete 0 (.err kReadTO)), .ex (.decide 0), .ex (.launch 1)]
+    (k.reqCons, k.cons) = ([4, 4, 6], 4) := by decide
+
 /-- non-vacuity: a query with three executions — the winner's result cancels one execution in flight (it comes
     back with the context's error), one whose Retry decision is pending (its next attempt reaches no server) and
     one not launched (it takes a host, its attempt reaches no server): 3 requests, 3 + 2 attempts counted -/
